@@ -82,7 +82,7 @@ def resolve(discs):
     return vals
 
 
-def build(variants, repr, discs, cfg):
+def build(variants, repr, discs, cfg, laws=True):
     """variants: list of (style, [payload codes]) with style u/t/n"""
     traits, derives = CFG[cfg]
     vals = resolve(discs)
@@ -138,13 +138,19 @@ def build(variants, repr, discs, cfg):
     src += '    ord_pairs(r, &vs, &|a, b| a.partial_cmp(b), %s, &model, &|a, b| (a < b, a <= b, a > b, a >= b));\n' % (
         'Some(&|a: &Ty, b: &Ty| a.cmp(b))' if has_ord else 'None')
     src += '    neighbour_pairs(r, &vs, &|a, b| a.partial_cmp(b), &model);\n'
-    if has_ord:
+    if has_ord and laws:
         src += '    ord_laws(r, &vs, &|a, b| a.cmp(b));\n'
     src += '}\n'
     vk = ','.join(st + '(' + '+'.join(ps) + ')' if st != 'u' else 'u' for st, ps in variants)
-    key = 'C04|%s|%s|repr(%s)|%s' % (cfg, vk, repr or '', ','.join('_' if d is None else str(d) for d in discs))
+    dk = ','.join('_' if d is None else str(d) for d in discs)
+    if len(variants) > 12:      # run-length form of the long lists
+        from ..core import shash
+        parts = vk.split(',')
+        vk = 'x%d:%s' % (len(parts), ','.join('%s*%d' % (g, len(list(it))) for g, it in itertools.groupby(parts)))
+        dk = '%s..%s#%x' % ('_' if discs[0] is None else discs[0], '_' if discs[-1] is None else discs[-1], shash(dk) & 0xffff)
+    key = 'C04|%s|%s|repr(%s)|%s' % (cfg, vk, repr or '', dk)
     depth = (1 if repr else 0) + sum(1 for d in discs if d is not None) + sum(len(ps) for _, ps in variants)
-    return Case(key, src, {'cfg': cfg, 'variants': vk, 'repr': repr, 'discriminants': discs, 'resolved': vals, 'values': len(values)},
+    return Case(key, src, {'cfg': cfg, 'variants': vk, 'repr': repr, 'discriminants': discs if len(discs) <= 12 else dk, 'resolved': vals if len(vals) <= 12 else [vals[0], vals[-1]], 'values': len(values)},
                 expect='accept', run=True, depth=depth)
 
 
@@ -220,6 +226,18 @@ def generate(tier):
         if repr is None:
             vs = [('u', []), ('t', ['bool']), ('n', ['u8'])] * 4
             cases.append(build(vs, None, [None] * 12, 'OP'))
+    # G: more variants than a byte can rank (256, 257, 300): implicit, decreasing and rotated discriminants; payloads beyond position 255
+    for v in (256, 257, 300):
+        for repr, dk in ((None, 'implicit'), ('u16', 'decreasing'), ('i16', 'rotated'), ('u16', 'payload')):
+            if v != 300 and dk not in ('implicit', 'decreasing'):
+                continue
+            discs = {'implicit': [None] * v, 'decreasing': [1000 - i for i in range(v)], 'rotated': [((i + 77) % v) - 100 for i in range(v)],
+                     'payload': [None] * v}[dk]
+            vs = [('u', [])] * v
+            if dk == 'payload':
+                vs = [('u', [])] * (v - 6) + [('t', ['bool']), ('u', []), ('n', ['u8']), ('u', []), ('t', ['unit']), ('u', [])]
+            k += 1
+            cases.append(build(vs, repr, discs, cfgs[k % 4], laws=False))
     seen, out = set(), []
     for c in cases:
         if c.key not in seen:
@@ -228,7 +246,7 @@ def generate(tier):
     return out
 
 
-RULE = ('twelve-variant enums (implicit, decreasing, rotated discriminants); four- and five-variant enums (all-unit x repr x discriminant patterns; mixed payloads in every rotation); enums with V<=3 variants over variant shapes {unit, tuple(P), named{P}, tuple(P,P)} x payload P in {bool, u8, i8, char, '
+RULE = ('enums with 256, 257 and 300 variants (implicit, decreasing, rotated discriminants, payloads in the last variants; all pairs, no triples); twelve-variant enums (implicit, decreasing, rotated discriminants); four- and five-variant enums (all-unit x repr x discriminant patterns; mixed payloads in every rotation); enums with V<=3 variants over variant shapes {unit, tuple(P), named{P}, tuple(P,P)} x payload P in {bool, u8, i8, char, '
         '&\'static u8, NonZeroU8, Option<NonZeroU8>, Option<bool>, (), u16, u32, nested enum} x #[repr] in {none, C, u8..i64, usize, isize, '
         '"C, u8", align(N), transparent} x discriminant patterns {implicit; up to the type maximum by implicit continuation; decreasing; '
         'negative; minimum; gaps with implicit continuation; values that read as negative i8} (only those rustc accepts) x {PartialOrd; Ord + '
